@@ -1,4 +1,4 @@
-(* C11 — property theorems (statements only; proofs live in Acme.C11.{Proofs,Strings,RoundTrip,RoundTripEnum,RoundTripAttr}).
+(* C11 — property theorems (statements only; proofs live in Acme.C11.{Proofs,Strings,RoundTrip,RoundTripEnum,RoundTripAttr,RoundTripMux}).
    Model: Acme.C10.{Export,Import,BusModel}; `export_import b = import (text_roundtrip (export b))`.
    Partial: the whole-bus theorem `export_import_ast_plain_partial` is an AST-level statement (import of the
    exported AST after the MODELLED write/parse effect; names need not be identifiers) proved for PLAIN buses (standard signals,
@@ -12,15 +12,19 @@
    `export_import_ast_attr_partial` extends that to buses with ATTRIBUTES (`abus`): assignments of the four
    attribute types (and hex format) on the bus, the nodes, the messages and the signals, and the dedicated
    fields cycle / delay / start-delay time, message send type, signal start value, signal send type
-   (exported as the well-known Gen* attributes and landing back in the fields).  Not covered by a
-   whole-bus theorem: multiplexers.
+   (exported as the well-known Gen* attributes and landing back in the fields);
+   `export_import_ast_mux_partial` covers SIMPLE MULTIPLEXERS (`mbus`: per message at most one multiplexer
+   at top level with standard children, each child in exactly one group, no attributes; the other signals of
+   such a message standard).  Not covered by a whole-bus theorem: nested / extended multiplexing (several
+   multiplexers per message, children in several groups or fixed), and multiplexers together with attributes
+   or enum signals in the same message.
    The full statement is
    Acme.C11.RoundTrip.export_import_full_statement (well_formed, names_ok spelled out there).
    The other ingredients are proved in isolation: the four attribute types (+hex) and their defaults
    through the write/parse effect, SG_MUL_VAL_ ranges, the start-bit conversion, the sanitiser. *)
 From Coq Require Import String ZArith List.
 From Acme.C10 Require Import DbcDoc BusModel Import Export Bits.
-From Acme.C11 Require Import Strings Proofs RoundTrip RoundTripEnum RoundTripAttr Refuted.
+From Acme.C11 Require Import Strings Proofs RoundTrip RoundTripEnum RoundTripAttr RoundTripMux Refuted.
 Import ListNotations.
 Open Scope Z_scope.
 
@@ -50,6 +54,14 @@ Theorem export_import_ast_attr_partial : forall b, abus b ->
   exists b', export_import b = Ok b' /\ proj_bus b' = proj_bus b.
 Proof. exact RoundTripAttr.export_import_attr_thm. Qed.
 Print Assumptions export_import_ast_attr_partial.
+
+(* simple multiplexers: a message may hold one multiplexer signal whose children (standard signals) sit each
+   in exactly one group; parent, group membership, absolute positions and selector width are reproduced.
+   The importer re-sorts the signals by start bit, the proof is invariant under that permutation *)
+Theorem export_import_ast_mux_partial : forall b, mbus b ->
+  exists b', export_import b = Ok b' /\ proj_bus b' = proj_bus b.
+Proof. exact RoundTripMux.export_import_mux_thm. Qed.
+Print Assumptions export_import_ast_mux_partial.
 
 (* attribute definitions of the four types (and hex format), defaults included *)
 Theorem attr_def_roundtrip : forall k name d, wf_def d ->
